@@ -179,6 +179,10 @@ func (netWorld) Gen(prop, tier string, idx int, r *Rng) *Trace {
 			ops = append(ops, Op{K: "craft", S: cl, A: ai, B: r.Intn(len(att.Claims)), C: r.Intn(craftVariants)})
 			ops = append(ops, Op{K: "deliver", T: cl, B: att.Signer.Key, C: r.Intn(3)})
 		}
+		// the attester's own signer fails; nothing without a signature may verify afterwards
+		if r.Chance(1, 4) {
+			ops = append(ops, Op{K: "failsign", A: ai, B: r.Intn(len(att.Claims)), F: []string{"sig.err", "sig.nil", "sig.empty"}[r.Intn(3)], C: r.Intn(2)})
+		}
 		// misroute the genuine token
 		if r.Chance(2, 3) {
 			ops = append(ops, Op{K: "deliver", T: l, B: wrongKeyFor(r, att.Signer), C: r.Intn(3)})
@@ -539,6 +543,37 @@ func (netWorld) Exec(prop string, t *Trace) *Result {
 			} else {
 				roundTrips++
 				res.Probes["round_trip_ok"]++
+			}
+		case "failsign":
+			if op.A < 0 || op.A >= len(atts) {
+				break
+			}
+			st := atts[op.A]
+			spec := cfg.Attesters[op.A].Signer
+			if op.B < 0 || op.B >= len(st.live) || st.live[op.B] == nil {
+				break
+			}
+			fs := &FaultySigner{inner: st.hs, kind: op.F}
+			st.ev.Claims = st.live[op.B]
+			var tok []byte
+			var err error
+			if op.C%2 == 0 {
+				tok, err = st.ev.Sign(fs)
+			} else {
+				tok, err = st.ev.ValidateAndSign(fs)
+			}
+			if fs.Fired {
+				res.Faults[op.F]++
+			}
+			res.Evals++
+			res.logf("%d failsign att=%d f=%s err=%s", i, op.A, op.F, okOrErr(err))
+			if c02 && fs.Fired && err != nil && len(tok) == 0 {
+				for _, k := range []int{spec.Key, -1} {
+					if verr := st.ev.Verify(pubKey(k)); verr == nil {
+						res.violate("C02", "verifies-without-signature", "", i, "after a signing attempt whose signer failed (%s) the Evidence carries no signature, yet Verify(key %d) succeeded", op.F, k)
+					}
+				}
+				res.Probes["verify_after_signer_failure"]++
 			}
 		case "absorb":
 			if op.A < 0 || op.A >= len(atts) {
